@@ -44,7 +44,10 @@ THEOREM_NOTES = {
     "C05_results_from_same_rows": "every clause guarded by 0 < N_l (numpy reports nan where N_l = 0); the content is that the code's central-moment "
                                   "detour equals the raw moments; cl is in C05_cost_from_passes",
     "C05_cost_from_passes": "ghost list of (one_simulation_cost, dNl) per pass: sum_cost = sum cost*dNl, N_l = sum dNl, cl = their quotient",
-    "C05_engine_reuse": "repaired tree (fix-mc3 2ee0788: path-manager list restarts at every initialisation); state = list of manager tags; the "
+    "vector payoffs, statistics": "F-C05-5 recorded: price(), ml, vl, ... read payoff component 0 only; every history with d > 1 reports it, "
+                                  "matches_known requires the reported price to be exactly the component-0 estimator",
+    "C05_engine_reuse": "managers are appended per level (managers_at) and looked up with nth_error (never None: manager_used_some; later appends do not "
+                        "change the lookup: lookup_stable); with reset = true the previous list is discarded -- that IS the repair; repaired tree (fix-mc3 2ee0788: path-manager list restarts at every initialisation); state = list of manager tags; the "
                         "pre-repair behaviour (stale manager of the first pricing) is the Example C05_stale_manager_before_repair",
     "C05_fixed_level_variant": "guard initial_level <= maximum_level (otherwise MLMCStatistics.extend raises IndexError: model returns None)",
     "vector payoffs": "F-C05-3 repaired (fix-mc3 440d935: fine/coarse stacked along the last axis); theorems are about payoff component 0, "
@@ -120,6 +123,7 @@ def correspond(res):
 
     _fixed_variant(res, rng)
     _engine_reuse(res, rng)
+    _real_coupling(res)
     _control_variates(res, rng)
 
 
@@ -166,6 +170,63 @@ def _engine_reuse(res, rng):
         res.broke("correspondence reuse", f"model and implementation differ on {len(bad)} pricing sequences on one engine, first: {cases[bad[0]][:1500]}")
     else:
         res.case_ok += nshards
+
+
+def _real_coupling(res):
+    """a REAL coupling process (CouplingMarkovChain on a HEM model: real next_level, real grid refinement, real path managers):
+    a second pricing on a re-used engine must store bit for bit the rows a fresh engine stores (same seed), for the
+    fixed-level variant and for the adaptive price with scripted criteria"""
+    import warnings
+    import numpy as np
+    from rpylib.model.utils import create_exponential_of_levy_model, ModelType
+    from rpylib.grid.spatial import CTMCUniformGrid
+    from rpylib.distribution.sampling import SamplingMethod
+    from rpylib.montecarlo.configuration import ConfigurationMultiLevel, ConvergenceRates
+    from rpylib.montecarlo.multilevel.engine import Engine
+    from rpylib.process.coupling.couplingmarkovchain import CouplingMarkovChain
+    from rpylib.product.product import Product
+    from rpylib.product.payoff import Vanilla, PayoffType
+    from rpylib.product.underlying import Spot
+    from mcscript import Shared, scripted_criteria
+
+    def mk(L0, Lmax, n, crit=None):
+        model = create_exponential_of_levy_model(ModelType.HEM)()
+        cp = CouplingMarkovChain(model=model, method=SamplingMethod.BINARYSEARCHTREEADAPTED1D, grid=CTMCUniformGrid(h=0.05, model=model))
+        conf = ConfigurationMultiLevel(convergence_rates=ConvergenceRates(1.0, 2.0, 1.0), convergence_criteria=crit, initial_level=L0,
+                                       maximum_level=Lmax, initial_mc_paths=n, nb_of_processes=1, seed=5)
+        return Engine(conf, cp), conf
+
+    def rows(st):
+        return [(np.array(st.simulation_payoff_with_fine_process(l)), np.array(st.simulation_payoff_with_coarse_process(l)))
+                for l in range(len(st.mc_statistics))]
+
+    product = Product(payoff_underlying=Spot(), payoff=Vanilla(strike=100.0, payoff_type=PayoffType.CALL), maturity=0.25)
+    for variant in ("fixed", "adaptive"):
+        for (first, second) in (((1, 1, 12), (1, 3, 12)), ((2, 2, 8), (1, 2, 16)), ((0, 2, 10), (0, 2, 10))):
+            with warnings.catch_warnings(), np.errstate(all="ignore"):
+                warnings.simplefilter("ignore")
+
+                def price(eng, conf, cfg):
+                    conf.initial_level, conf.maximum_level, conf.initial_mc_paths = cfg
+                    if variant == "fixed":
+                        return eng.price_with_constant_mc_paths_and_level(product)
+                    conf.convergence_criteria = scripted_criteria([[cfg[2] + 2] * 8, [cfg[2] + 2] * 8, [cfg[2] + 3] * 8], [False, False, True], Shared())
+                    return eng.price(product, rmse=0.1)
+                eng, conf = mk(*first)
+                price(eng, conf, first)
+                reused = rows(price(eng, conf, second))
+                engf, conff = mk(*second)
+                fresh = rows(price(engf, conff, second))
+            res.count(("real", variant, first, second), nontrivial=True, kind=f"real CouplingMarkovChain, engine re-used ({variant})")
+            same = len(reused) == len(fresh) and all(np.array_equal(a[0], b[0]) and np.array_equal(a[1], b[1]) for a, b in zip(reused, fresh))
+            if not same:
+                l = next((k for k, (a, b) in enumerate(zip(reused, fresh)) if not (np.array_equal(a[0], b[0]) and np.array_equal(a[1], b[1]))), None)
+                res.violation("real coupling process: the second pricing on a re-used engine does not store the rows a fresh engine stores (same seed)",
+                              {"kind": "real", "variant": variant, "first": list(first), "second": list(second), "level": l,
+                               "reused_mean": None if l is None else float(np.mean(reused[l][0])), "fresh_mean": None if l is None else float(np.mean(fresh[l][0]))})
+            if variant == "fixed" and any(len(a[0]) != second[2] for a in reused):
+                res.violation("real coupling process: fixed-level variant does not hold the configured number of paths on every level",
+                              {"kind": "real", "variant": variant, "second": list(second), "rows": [len(a[0]) for a in reused]})
 
 
 def _fixed_variant(res, rng):
@@ -262,7 +323,10 @@ def _control_variates(res, rng):
         prices = [rng.choice([1.0, 2.0, 4.5]), rng.choice([0.5, 1.0])][:ncv]
         spec["cv"] = {"ncv": ncv, "prices": prices}
         cvn = [1.0, -0.5][:ncv]                     # second control held short: Sigma_X gets a negative entry
-        cv = make_control_variates(funs[:ncv], prices, notionals=cvn)
+        array_prices = i % 2 == 1                  # prices given per payoff component (arrays) instead of scalars
+        spec["cv"]["prices_form"] = "arrays" if array_prices else "scalars"
+        res.bump("cv_prices_form", spec["cv"]["prices_form"])
+        cv = make_control_variates(funs[:ncv], [np.array([p]) for p in prices] if array_prices else prices, notionals=cvn)
         obs = D.run_engine(spec, cv=cv)
         if obs["raised"]:
             res.broke("correspondence driver", f"Engine.price with control variates raised {obs['raised']}")
